@@ -212,10 +212,10 @@ Eval vm_compute in summary.
 
 
 META = {
-    "ready": False,
+    "ready": True,
     "category": "proof",
     "technique": "Rocq inductive invariants over a hand-written executable small-step model + scenario conformance and goroutine stress on real actor systems",
-    "text": "",
+    "text": "Eight theorems over a small-step model of name-based spawning (per-path single flight, lookup, newPID/PreStart, actors counter, addNode with canonical-instance return, Shutdown, death watch deleting by path; any number of names, callers and stoppers, any interleaving): all callers of one flight get the same result and the counter's increments/decrements are paired (every interleaving); at most one running instance per name, every successful caller handed the registered running instance, NumActors = number of running registered actors at quiescence (C11_partial: when a name is not looked up while its tree node still holds a stopped instance); refutation witnesses for Spawn and SpawnChild racing the death watch (open finding). Every run: generated driver sequences (concurrent Spawn/SpawnNamedFromFunc/SpawnChild of the same and different names, gated PreStart, Kill, held death watch) on real actor systems compared with the Coq model after every action (vm_compute), plus goroutine stress with the property's own oracle.",
     "design_ref": "DESIGN.md 7/C11",
-    "level_note": "",
+    "level_note": "Trusted: Coq kernel, the hand-written model (tied each run), x/sync singleflight contract (exercised, not proved), Go runtime for un-gated parts.",
 }
